@@ -2258,6 +2258,8 @@ class Verifier(Engine):
             if tt in self.records.layout: tt = 'rec:' + tt
             st.env[n] = self.fresh_val(tt, n, st, constrain=tt.startswith('rec:'))
             if t == 'nat': st.assume(st.env[n] >= 0)
+        for gt, gn in getattr(lm, 'globals', []):
+            st.env['::' + gn] = self.fresh_val(gt, 'glob.' + gn, st)
         for cl in lm.requires: self.assume_clause(cl.expr, st)
         if 'induction' in lm.options:
             v, lbx = lm.options['induction']
